@@ -10,4 +10,6 @@ def run(tier, seed):
         res.add(run_functions(D.FUNCTIONS, "C03/smt", tier))
     except ImportError:
         res.assumptions.append("SMT contracts of _type_modify_decl/_fix_decl_name_type not built; they run for real inside the GX runs")
+    from props import declsweep
+    res.add(declsweep.independence())
     return res
